@@ -256,6 +256,11 @@ func decorations(op *Op, withArgs bool) []Dec {
 			for _, f := range []string{"lit", "var", "varA", "varZ"} {
 				out = append(out, Dec{Kind: "tag", ID: n.ID, Form: f})
 			}
+			if tagNestedForms && hasIntArgX(s.Type, n) {
+				for _, f := range []string{"listvar", "listvarA", "objvar", "objvarA", "listshared", "listsharedA"} {
+					out = append(out, Dec{Kind: "tag", ID: n.ID, Form: f})
+				}
+			}
 			if shared {
 				for _, f := range []string{"shared", "sharedA", "sharedZ"} {
 					out = append(out, Dec{Kind: "tag", ID: n.ID, Form: f}, Dec{Kind: "tag", ID: n.ID, Arg: "op", Form: f})
@@ -377,6 +382,13 @@ var twinMenu = []twinEntry{
 //	             varZ    the same with another spelling (member of the class of var: differs only in the variable name)
 //	             shared  @tag(n: $tg<id>) and the same variable as field argument x
 //	             sharedA / sharedZ   the same with the other spellings
+//
+// tagNestedForms: variables used ONLY inside a list / object argument of the directive
+// (listvar, objvar), the same named "a" (listvarA, objvarA), and with the variable also
+// used as field argument x (listshared). They reproduce the defect fixed in 4650230
+// (the variables mapper did not look inside list / object values of directive arguments).
+const tagNestedForms = true
+
 func tagVarName(d Dec) string {
 	switch {
 	case strings.HasSuffix(d.Form, "A"):
@@ -865,6 +877,37 @@ func apply(op *Op, d Dec) bool {
 			}
 			op.addVar(VarDef{N: vn, T: "String"}, true, "x")
 			dir.If = vVar(vn)
+		case "listvar", "listvarA", "objvar", "objvarA", "listshared", "listsharedA":
+			// needs a second variable in a field argument: x gets $zx<id> (value 2)
+			vn := tagVarName(d)
+			zn := fmt.Sprintf("zx%d", d.ID)
+			if op.hasVar(vn) || op.hasVar(zn) || !hasIntArgX(set.Type, n) {
+				return false
+			}
+			for _, a := range n.Args {
+				if a.N == "x" && a.V.hasVar() {
+					return false
+				}
+			}
+			if strings.HasPrefix(d.Form, "obj") {
+				op.addVar(VarDef{N: vn, T: "Int!"}, true, 1)
+				dir.A, dir.If = "o", vObj("r", vVar(vn))
+			} else {
+				op.addVar(VarDef{N: vn, T: "Int"}, true, 1)
+				dir.A, dir.If = "l", vList(vVar(vn))
+			}
+			op.addVar(VarDef{N: zn, T: "Int"}, true, 2)
+			na := []Arg{{N: "x", V: vVar(zn)}}
+			for _, a := range n.Args {
+				if a.N != "x" {
+					na = append(na, a)
+				}
+			}
+			n.Args = na
+			if strings.HasPrefix(d.Form, "listshared") {
+				// control: the variable is also used directly, on an extra root selection
+				op.Sel = append(append([]*Node(nil), op.Sel...), &Node{ID: op.newID(), K: 'f', Alias: "zc", Name: "f", Args: []Arg{{N: "x", V: vVar(vn)}}})
+			}
 		case "shared", "sharedA", "sharedZ":
 			vn := tagVarName(d)
 			if op.hasVar(vn) {
@@ -1229,7 +1272,7 @@ func (d Dec) canon() string {
 		return "form"
 	case "tag":
 		switch d.Form {
-		case "varA", "varZ", "sharedA", "sharedZ":
+		case "varA", "varZ", "sharedA", "sharedZ", "listvarA", "objvarA", "listsharedA":
 			return "form" // differs from var / shared only in the variable name
 		}
 		return "self"
